@@ -31,6 +31,8 @@ def generator_by_enumeration(state_space, single, two, cyclic):
         src = idx(s)
         for i in range(d):
             for (r, p, rate) in single[i]:
+                if r == p:
+                    continue  # a null reaction contributes exactly nothing (gain and loss hit the same entry): never added and subtracted here
                 if s[i] == r:
                     t = list(s)
                     t[i] = p
@@ -41,6 +43,8 @@ def generator_by_enumeration(state_space, single, two, cyclic):
             bonds.append((d - 1, 0, two[d - 1]))
         for (a, b, reacs) in bonds:
             for (r1, p1, r2, p2, rate) in reacs:
+                if r1 == p1 and r2 == p2:
+                    continue
                 if s[a] == r1 and s[b] == r2:
                     t = list(s)
                     t[a] = p1
@@ -136,7 +140,7 @@ class Ulam(probe.Contract):
         states = list(v['states'])
         sim = v['simulations']
         k = self.dim
-        if not (_is_tt(res) and tt_consistent(res)[0]) or int(np.prod(states)) > 512:
+        if not (_is_tt(res) and tt_consistent(res)[0]) or int(np.prod(states)) > 1400:
             return
         n = int(np.prod(states))
         H = np.zeros((n, n))
